@@ -73,10 +73,11 @@ def make_node(p, rot=(0.0, 0.0, 0.0)):
     return L["PathNode"](L["tm"]([p[0], p[1], p[2], rot[0], rot[1], rot[2]]))
 
 
-def make_planner(boxes, reg="list"):
-    """One fresh planner, obstructions registered through addObstruction only."""
+def make_planner(boxes, reg="list", r=None):
+    """One fresh planner (or more boxes on the planner given), obstructions registered through addObstruction only."""
     L = lib()
-    r = L["RRTStar"]()
+    if r is None:
+        r = L["RRTStar"]()
     for lo, hi in boxes:
         lo = [x for x in lo]
         hi = [x for x in hi]
@@ -470,7 +471,28 @@ def check_case(case, ctx):
     if "kind" in case:
         ctx.label("gen=%s" % case["kind"])
     ctx.nontrivial(nt)
-    planner = make_planner(boxes, case["reg"])
+    na = make_node(p, case["rot_p"])
+    nb = make_node(q, case["rot_q"])
+    k = case.get("asked_after")
+    if k is not None and 0 <= int(k) < len(boxes):
+        # registration history: the same question is asked once while only the first k boxes are registered; the
+        # answer then is about those k boxes, the answer after the remaining registrations about all of them
+        k = int(k)
+        ctx.label("history: asked after %s of the registrations, then again after all" % ("none" if k == 0 else "some"))
+        planner = make_planner(boxes[:k], case["reg"])
+        g0, s0, c0 = decide_float(p, q, boxes[:k])
+        early = sut(planner.obstruction, na, nb)
+        if (exact or g0 == s0) and bool(early) != (c0 if exact else g0):
+            raise Violation("obstruction(p, q) with the first %d boxes registered says %s, exact Liang-Barsky says %s "
+                            "(p=%s q=%s boxes=%s)" % (k, bool(early), c0 if exact else g0, p, q, boxes[:k]))
+        planner = make_planner(boxes[k:], case["reg"], planner)
+    else:
+        planner = make_planner(boxes, case["reg"])
+    if case.get("min_dist") is not None:
+        # the planner's minimum connection distance is a tree-building setting; the obstruction answer is about the
+        # segment and the boxes only
+        planner.minimum_distance = float(case["min_dist"])
+        ctx.label("minimum_distance=%g" % float(case["min_dist"]))
     if case.get("dmode") is not None:
         # planner configuration that has nothing to do with the obstruction test (distance mode of the tree
         # builder): the answer must not depend on it
@@ -478,8 +500,6 @@ def check_case(case, ctx):
         ctx.label("dmode=%d" % int(case["dmode"]))
     if len(planner.obstructions) != len(boxes):
         raise Violation("addObstruction registered %d obstructions for %d boxes" % (len(planner.obstructions), len(boxes)))
-    na = make_node(p, case["rot_p"])
-    nb = make_node(q, case["rot_q"])
     got = sut(planner.obstruction, na, nb)
     if bool(got) != expected:
         raise Violation("obstruction(p, q) says %s, exact Liang-Barsky says %s (p=%s q=%s boxes=%s)"
@@ -541,7 +561,7 @@ def segments_near(draw, box):
     direction in the tangent plane; end point on the boundary; contained; or unrelated."""
     lo, hi = box
     kind = draw(st.sampled_from(["random", "through", "through", "edge_graze", "edge_graze", "endpoint_on",
-                                 "contained", "axis_parallel", "zero_length"]))
+                                 "contained", "axis_parallel", "zero_length", "short_across", "short_across"]))
 
     def anchor():
         q, where = [], []
@@ -558,6 +578,22 @@ def segments_near(draw, box):
         a, where = anchor()
         p = [_clip(a[i] + (draw(_OFF) if where[i] != "in" else 0.0)) for i in range(3)]
         q = list(p)
+    elif kind == "short_across":
+        # a short segment (1e-4 .. 0.2 long) straddling the boundary at a point of a face, edge or corner: the two
+        # parts on either side of the boundary point have independent lengths, so the midpoint is outside as often
+        # as inside
+        a, where = anchor()
+        if all(w == "in" for w in where):
+            where[draw(st.integers(0, 2))] = "hi"
+            a = [hi[i] if where[i] == "hi" else a[i] for i in range(3)]
+        d = [draw(G.floats(-1.0, 1.0)) for _ in range(3)]
+        for i in range(3):
+            if where[i] != "in":      # leave the box along every axis on whose boundary the anchor lies
+                d[i] = (1.0 if where[i] == "hi" else -1.0) * draw(G.floats(0.2, 1.0))
+        s = draw(G.log_uniform(1e-4, 0.1))
+        t = draw(G.log_uniform(1e-4, 0.1))
+        p = [_clip(a[i] + s * d[i]) for i in range(3)]
+        q = [_clip(a[i] - t * d[i]) for i in range(3)]
     elif kind == "contained":
         p, _ = anchor()
         q, _ = anchor()
@@ -616,7 +652,8 @@ def float_pair_cases(draw):
     p, q, kind = draw(segments_near(box))
     return {"p": p, "q": q, "boxes": [box], "rot_p": draw(_rot()), "rot_q": draw(_rot()),
             "reg": draw(st.sampled_from(["list", "list", "tm"])), "exact": False, "kind": kind, "also_reversed": True,
-            "dmode": draw(st.sampled_from([None, 0, 1, 1]))}
+            "dmode": draw(st.sampled_from([None, 0, 1, 1])),
+            "min_dist": draw(st.sampled_from([None, None, 0.0, 0.1, 1.5, 25.0]))}
 
 
 @st.composite
@@ -661,7 +698,9 @@ def box_set_cases(draw):
         exact = not half
     return {"p": p, "q": q, "boxes": boxes, "rot_p": draw(_rot()), "rot_q": draw(_rot()),
             "reg": draw(st.sampled_from(["list", "list", "tm"])), "exact": exact, "kind": kind, "also_reversed": True,
-            "dmode": draw(st.sampled_from([None, 0, 1, 1]))}
+            "dmode": draw(st.sampled_from([None, 0, 1, 1])),
+            "min_dist": draw(st.sampled_from([None, None, 0.0, 0.1, 1.5, 25.0])),
+            "asked_after": draw(st.one_of(st.none(), st.integers(0, max(0, n - 1)))) if n else None}
 
 
 CLAUSES = [
